@@ -131,6 +131,8 @@ class BitEval:
                 if op == "Shl":
                     return [z] * n + a[:64 - n]
                 return a[n:] + [z] * n
+            if op in ("Add", "Sub"):
+                return self.addsub(op, self.vec(e[2]), self.vec(e[3]))
             raise CannotBit("binary %s" % op)
         if k == "un" and e[1] == "Not":
             return [combine("not", x) for x in self.vec(e[2])]
@@ -139,7 +141,30 @@ class BitEval:
             if tail == "swap_bytes":
                 a = self.vec(e[2][0])
                 return [a[i ^ 56] for i in range(64)]
+            if tail == "reverse_bits":
+                a = self.vec(e[2][0])
+                return [a[63 - i] for i in range(64)]
+            if tail in ("wrapping_sub", "wrapping_add") and len(e[2]) == 2:
+                return self.addsub("Sub" if tail == "wrapping_sub" else "Add", self.vec(e[2][0]), self.vec(e[2][1]))
         raise CannotBit("cannot bit-evaluate %s" % (str(e)[:80]))
+
+    def addsub(self, op, a, b):
+        """ripple-carry addition / subtraction modulo 2^64; exact, but only attempted while the carry chain stays a
+        function of few input bits (constants absorb it)"""
+        out = []
+        carry = const_bit(0)
+        for i in range(64):
+            x, y = a[i], b[i]
+            s = combine("xor", combine("xor", x, y), carry)
+            if op == "Add":
+                carry = combine("or", combine("and", x, y), combine("and", carry, combine("xor", x, y)))
+            else:
+                nx = combine("not", x)
+                carry = combine("or", combine("and", nx, y), combine("and", carry, combine("not", combine("xor", x, y))))
+            if len(carry[0]) > 10 or len(s[0]) > 12:
+                raise CannotBit("carry chain of %s depends on too many input bits" % op)
+            out.append(s)
+        return out
 
     def pred(self, e):
         """Boolean expression -> list of per-position formulas that must all hold, or ('not', list)"""
